@@ -10,16 +10,22 @@ def _is_arr(x):
     return isinstance(x, (int, float, np.ndarray)) or (hasattr(x, "shape") and hasattr(x, "dtype"))
 
 
-def _scale(a, b, kap):
+LOG_ATTRS = {"ln_beta", "ln_det_Sigma", "ln_det_Lambda", "lnZ"}
+
+
+def _scale(a, b, kap, floor=0.0):
+    """floor: absolute floor of the scale.  Log-quantities (log-constants, log-determinants, log-integrals) have natural scale
+    >= 1 (tolerance rule of DESIGN 1.3: an absolute error of 1e-8 in ln u is a relative error of 1e-8 in u): a value that
+    happens to be ~0 is still the sum of terms of ordinary size."""
     a, b = np.asarray(a, float), np.asarray(b, float)
     if a.shape != b.shape:
         return None
     m = np.maximum(np.abs(a), np.abs(b))
     g = np.max(m) if m.size else 0.0
-    return np.maximum(np.maximum(m, 0.01 * g), 1e-6 * (1.0 + g)) * kap + 1e-12 * kap
+    return np.maximum(np.maximum(np.maximum(m, 0.01 * g), 1e-6 * (1.0 + g)), floor) * kap + 1e-12 * kap
 
 
-def compare(fails, label, a, b, kap=1.0, pts=None, tol=1e-8, attrs=ATTRS):
+def compare(fails, label, a, b, kap=1.0, pts=None, tol=1e-8, attrs=ATTRS, floor=0.0):
     """a: result under test, b: reference result (same op on the general / sliced object)."""
     if a is None and b is None:
         return
@@ -28,14 +34,14 @@ def compare(fails, label, a, b, kap=1.0, pts=None, tol=1e-8, attrs=ATTRS):
         if a_.shape != b_.shape:
             fails.append(Failure(label + ":shape", f"{label}: shape {a_.shape} vs reference {b_.shape}"))
             return
-        check(fails, label, a_, b_, _scale(a_, b_, kap), tol=tol)
+        check(fails, label, a_, b_, _scale(a_, b_, kap, floor), tol=tol)
         return
     if isinstance(a, (tuple, list)) and isinstance(b, (tuple, list)):
         if len(a) != len(b):
             fails.append(Failure(label + ":len", f"{label}: {len(a)} vs {len(b)} results"))
             return
         for i, (x, y) in enumerate(zip(a, b)):
-            compare(fails, f"{label}[{i}]", x, y, kap, pts, tol, attrs)
+            compare(fails, f"{label}[{i}]", x, y, kap, pts, tol, attrs, floor)
         return
     if _is_arr(a) != _is_arr(b):
         fails.append(Failure(label + ":type", f"{label}: result kinds differ ({type(a).__name__} vs {type(b).__name__})"))
@@ -49,7 +55,7 @@ def compare(fails, label, a, b, kap=1.0, pts=None, tol=1e-8, attrs=ATTRS):
         if va_.shape != vb_.shape:
             fails.append(Failure(f"{label}.{nm}:shape", f"{label}.{nm}: shape {va_.shape} vs reference {vb_.shape}"))
             continue
-        check(fails, f"{label}.{nm}", va_, vb_, _scale(va_, vb_, kap), tol=tol)
+        check(fails, f"{label}.{nm}", va_, vb_, _scale(va_, vb_, kap, 1.0 if nm in LOG_ATTRS else 0.0), tol=tol)
     if pts is not None and hasattr(a, "evaluate_ln") and hasattr(b, "evaluate_ln"):
         from .libx import J
 
